@@ -47,9 +47,11 @@ type c01World struct {
 	base int
 }
 
-func c01New(n, cpb int) *c01World {
+// slack = bytes of the mapping behind the last slot (0: the region ends exactly at the end of the mapping,
+// the boundary case of readBufferSlice's end check)
+func c01New(n, cpb, slack int) *c01World {
 	stride := cpb + bufferHeaderSize
-	mem := make([]byte, c01ListOff+bufferListHeaderSize+n*stride+4)
+	mem := make([]byte, c01ListOff+bufferListHeaderSize+n*stride+slack)
 	l, err := createFreeBufferList(uint32(n), uint32(cpb), mem, c01ListOff)
 	if err != nil {
 		panic(err)
@@ -83,7 +85,7 @@ func (w *c01World) chainFrom(o int) []int {
 func c01Run(id int, strat string, n, cpb int, progs [][]c01Op, mk func(nthreads int) vsChooser, fixed []int) c01Case {
 	c := c01Case{ID: id, Strat: strat, N: n, Cpb: cpb, Progs: progs}
 	vsReset()
-	w := c01New(n, cpb)
+	w := c01New(n, cpb, []int{0, 4, 0, 25}[id%4])
 	c.Base, c.Len = w.base, len(w.mem)
 	vsAddRegion(unsafe.Pointer(&w.mem[0]), len(w.mem))
 	vs.active = true
@@ -202,6 +204,18 @@ func c01Run(id int, strat string, n, cpb int, progs [][]c01Op, mk func(nthreads 
 							}
 						}
 						held[i] = keep
+						// C02: recycling a chain gives back EVERY buffer of the chain (all of them were held by this thread)
+						for _, o := range chain {
+							mine := false
+							for _, ho := range heldOff {
+								if ho == o {
+									mine = true
+								}
+							}
+							if mine && !pushed[o] {
+								oracle["recycling a message chain did not return every buffer of the chain"] = true
+							}
+						}
 					}
 				}()
 				res[i] = append(res[i], r)
@@ -449,6 +463,26 @@ func TestVerif_C01(t *testing.T) {
 		}
 		o.emit(c)
 		id++
+	}
+	// directed: the physically last slot (initially the tail, never handed out first) is allocated after a
+	// recycle, linked as the SECOND element of a message chain and given back through recycleBuffers —
+	// the path that looks buffers up by offset (readBufferSlice) at the very end of the mapping
+	for _, nslots := range []int{3, 4, 5} {
+		var prog []c01Op
+		for k := 0; k < nslots-1; k++ {
+			prog = append(prog, c01Op{K: "alloc"})
+		}
+		prog = append(prog, c01Op{K: "freeOldest"}, c01Op{K: "alloc"})
+		for k := 0; k < nslots-3; k++ {
+			prog = append(prog, c01Op{K: "freeOldest"})
+		}
+		prog = append(prog, c01Op{K: "update", Sz: 5, Link: true}, c01Op{K: "freeChain"}, c01Op{K: "alloc"})
+		for rep := 0; rep < 4; rep++ { // ids cycle through the slack values
+			c := c01Run(id, fmt.Sprintf("directed-last-slot-chain(n%d)", nslots), nslots, 16, [][]c01Op{prog},
+				func(int) vsChooser { return vsRandomChooser(newVrand(seed+uint64(id)), 0, 0) }, nil)
+			o.emit(c)
+			id++
+		}
 	}
 	// systematic single pre-emption for a fixed small configuration (3 slots, alloc/free/alloc vs alloc/free)
 	progs := [][]c01Op{{{K: "alloc"}, {K: "freeOldest"}, {K: "alloc"}, {K: "alloc"}}, {{K: "alloc"}, {K: "alloc"}, {K: "freeNewest"}, {K: "freeOldest"}}}
